@@ -121,6 +121,14 @@ def build(wb: WB, spec: dict):
         o = wb.job({"x": e}, op="inc", name="/sj")
         wb.out("o", wb.gather(o, sz))
         return {"o": inc(vals)}
+    if k == "fixeddirs":  # scattered jobs whose binding fixes the three directories explicitly
+        vals = list(range(spec["n"]))
+        p = wb.inp("a", vals)
+        e, sz = wb.scatter(p)
+        base = wb.workdir
+        o = wb.job({"x": e}, op="inc", name="/fx", dirs=(base + "/fixed-in", base + "/fixed-out", base + "/fixed-tmp"))
+        wb.out("o", wb.gather(o, sz))
+        return {"o": inc(vals)}
     if k == "twojobs":  # two independent jobs merged: diamond A -> {B, C} -> D
         p = wb.inp("a", 1)
         a = wb.job({"x": p}, op="inc", name="/A")
@@ -188,6 +196,8 @@ def program_jobs(spec):
         return [f"/sj/0.{i}" for i in range(spec["n"])]
     if k == "twojobs":
         return ["/A/0", "/B/0", "/C/0", "/D/0"]
+    if k == "fixeddirs":
+        return [f"/fx/0.{i}" for i in range(spec["n"])]
     if k == "seq_job_scatterjobs":
         return ["/A/0"] + [f"/B/0.{i}" for i in range(spec["n"])] + ["/C/0"]
     if k == "loopjob":
